@@ -941,7 +941,8 @@ func (tr *FnCtx) callMods(c *ssa.CallCommon) ([]Comp, bool) {
 			}
 			return nil, true
 		case "delete":
-			return []Comp{tr.W.mapDomComp(c.Args[0].Type())}, false
+			// delete resets the value components of the key to zero (default-zero normal form), so it writes them too
+			return append([]Comp{tr.W.mapDomComp(c.Args[0].Type())}, tr.W.mapValComps(c.Args[0].Type())...), false
 		}
 		return nil, false
 	}
